@@ -285,7 +285,13 @@ def body(ctx):
     sel = rnd.sample(units, 20 if ctx.thorough else 6)
     blocks, meta = [], {}
     k = 0
-    for u in sel:
+
+    class _Unlabeled:
+        # a unit without a label of its own: what is streamed is the library's marker text, whose
+        # storage must exist in the module (in C++14 a static constexpr member needs its
+        # out-of-line definition as soon as it is ODR-used, or the program does not link)
+        name, label = "VerifNoLabel", marker
+    for u in sel + [_Unlabeled]:
         # (long double travels through memory - x87 padding - and is not analysed at IR level);
         # the character types are all distinct from each other: int8_t / uint8_t are `signed char` /
         # `unsigned char`, plain `char` is a third 8-bit type, and the wide ones promote as well
@@ -294,7 +300,8 @@ def body(ctx):
                               'extern "C" void prp_%d(std::ostream &os, %s x) { os << au::make_quantity_point<au::%s>(x); }' % (k, r, u.name, k, r, u.name)))
             meta[k] = (u, r)
             k += 1
-    ipre = "#include <cstdint>\n#include <ostream>\n#include \"au/au.hh\"\n#include \"au/io.hh\"\n" + USING + hdrs
+    ipre = ("#include <cstdint>\n#include <ostream>\n#include \"au/au.hh\"\n#include \"au/io.hh\"\n" + USING + hdrs
+            + "namespace au { struct VerifNoLabel : UnitImpl<Length> {}; }\n")
     ns = [0, 0]
     chunks2 = [blocks[i:i + 22] for i in range(0, len(blocks), 22)]
 
@@ -309,7 +316,12 @@ def body(ctx):
             elif STR_INSERTER.match(cal):
                 ptr = e.args[1].attr if e.args[1].op == "opaque" else ""
                 m = re.search(r"@([\w.$]+)", ptr)
-                if m and m.group(1) in mod.globals:
+                if m and m.group(1) in mod.undefined:
+                    # the text is known to the compiler but the array has NO definition in this
+                    # translation unit (C++14: a static constexpr member without its out-of-line
+                    # definition): streaming it ODR-uses it and the program does not link
+                    ev.append(("label-storage-without-definition", m.group(1)))
+                elif m and m.group(1) in mod.globals:
                     ev.append(("str", mod.globals[m.group(1)].rstrip(b"\0").decode("latin-1")))
                 else:
                     ev.append(("char-or-unknown-buffer", ptr[:80]))
